@@ -502,7 +502,23 @@ def t0w0_oracle(spec):
     want = {nm: {int(c): v for c, v in zip(ref.idl[nm], common.chain_values(ref, nm))} for nm in ref.names}
     # iterative least-squares fit on inputs that agree to 1e-16: the solution is reproducible only to the minimiser's stopping
     # tolerance (observed 1e-9 relative); the per-configuration fluctuations of the data are >= 1e-3 relative
-    common.compare_obs(o, want, call['what'], rtol=1e-6)
+    # The scale is a derived quantity (root of a fitted line): what the reduction defines is its central value and its
+    # fluctuation on every configuration.  The replica means that a fit result carries are a convention of the fit routine
+    # (least_squares builds its parameters with a constant function of the data), so `r_value + delta` is not compared here:
+    # a closed-form straight-line fit with proper replica means (benign change C17-b4) is as right as fit_lin.
+    what = call['what']
+    require(sorted(o.names) == sorted(want), '%s: replica names %r, the files state %r' % (what, list(o.names), sorted(want)))
+    require(abs(float(o.value) - float(ref.value)) <= 1e-6 * abs(float(ref.value)),
+            '%s: central value %r, root of the line fitted to the stored data %r' % (what, float(o.value), float(ref.value)))
+    for nm in sorted(want):
+        require([int(c) for c in o.idl[nm]] == [int(c) for c in ref.idl[nm]],
+                '%s: configurations of %s are %r, the files state %r' % (what, nm, list(o.idl[nm])[:8], list(ref.idl[nm])[:8]))
+        dg, dw = np.asarray(o.deltas[nm], dtype=float), np.asarray(ref.deltas[nm], dtype=float)
+        tol = 1e-6 * max(float(np.max(np.abs(dw))), 1e-300)
+        bad = np.where(~(np.abs(dg - dw) <= tol))[0]
+        require(len(bad) == 0, '%s: fluctuation of %s at configuration %d is %r, the stored data give %r (%d of %d configurations differ)'
+                % (what, nm, int(o.idl[nm][int(bad[0])]) if len(bad) else -1, float(dg[bad[0]]) if len(bad) else None,
+                   float(dw[bad[0]]) if len(bad) else None, len(bad), len(dw)))
     nt, labs = flow_labels(fs, call, spec)
     labs.append('scale:' + call['what'])
     return {'nt': nt, 'cls': labs}
